@@ -908,14 +908,19 @@ class vPeriod(TimeBase):
             raise ValueError('end_or_duration MUST be a datetime, '
                              'date or timedelta instance')
         by_duration = 0
-        if isinstance(end_or_duration, timedelta):
-            by_duration = 1
-            duration = end_or_duration
-            end = start + duration
-        else:
-            end = end_or_duration
-            duration = end - start
-        if start > end:
+        try:
+            if isinstance(end_or_duration, timedelta):
+                by_duration = 1
+                duration = end_or_duration
+                end = start + duration
+            else:
+                end = end_or_duration
+                duration = end - start
+            start_after_end = start > end
+        except (TypeError, OverflowError) as e:
+            # e.g. date and datetime mixed, naive and aware mixed, out of range
+            raise ValueError(f'Start and end of a period do not fit together: {e}') from e
+        if start_after_end:
             raise ValueError("Start time is greater than end time")
 
         self.params = Parameters({'value': 'PERIOD'})
